@@ -232,7 +232,7 @@ class Engine(object):
         pcq = [p for p in st.pc if not ops.has_quantifier(p)]
         key = tuple(p.get_id() for p in pcq)
         if key in self._feas_cache:
-            return self._feas_cache[key]
+            return self._feas_cache[key][0]
         s = z3.Solver()
         s.set("timeout", int(self.options.get("feas_timeout_ms", 800)))
         s.add(*pcq)
@@ -242,7 +242,7 @@ class Engine(object):
         r = s.check()
         self.solver_seconds += time.time() - t0
         res = (r != z3.unsat)
-        self._feas_cache[key] = res
+        self._feas_cache[key] = (res, pcq)      # holds the terms so that their ids stay unique
         return res
 
     def entails(self, st, cond, timeout_ms=2000):
@@ -1310,6 +1310,33 @@ class Engine(object):
             r = self.comprehension(node.args[0], st, "condset")
             if len(r) == 1 and isinstance(r[0][1], LitSet):
                 return r
+        if (isinstance(node.func, ast.Name) and node.func.id in ("any", "all") and len(node.args) == 1
+                and isinstance(node.args[0], ast.GeneratorExp) and len(node.args[0].generators) == 1
+                and not node.args[0].generators[0].ifs and node.func.id not in st.env):
+            g = node.args[0].generators[0]
+            r = self.ev(g.iter, st)
+            if len(r) == 1 and isinstance(r[0][1], SeqV) and self.static_items(r[0][1]) is None:
+                sq, s1 = r[0][1], r[0][0]
+                # quantify over the ABSOLUTE array index (slices share their parent's arrays), so that
+                # instantiation by matching Select(array, index) terms works across slices
+                J = z3.Int(fresh_name("q"))
+                bt = to_int_term(sq.base) if not isinstance(sq.base, int) else z3.IntVal(sq.base)
+                j = J - bt
+                el, facts = seqs.seq_get(SeqV(sq.length, sq.elem, sq.arrs, sq.kind, 0), J)
+                s_in = self.assign(g.target, el, s1.assume(*facts, j >= 0, j < to_int_term(sq.length)))
+                n_obl = len(self.obligations)
+                rb = self.ev(node.args[0].elt, s_in)
+                if len(rb) == 1 and not isinstance(rb[0][1], Raised) and len(self.obligations) == n_obl:
+                    body = ops._tb(truth(rb[0][1]))
+                    extra = [f for f in rb[0][0].pc[len(s_in.pc):]]
+                    rng = z3.And(j >= 0, j < to_int_term(sq.length), *facts)
+                    if node.func.id == "any":
+                        val = z3.Exists([J], z3.And(rng, *extra, body))
+                    else:
+                        val = z3.ForAll([J], z3.Implies(z3.And(rng, *extra), body))
+                    return [(s1, val)]
+                del self.obligations[n_obl:]
+                raise EngineError("any/all over a symbolic sequence with a body that forks or may raise (line %d)" % node.lineno)
         out = []
         for s, fv in self.ev(node.func, st):
             if isinstance(fv, Raised):
